@@ -19,46 +19,48 @@ theorem Inv.length_lt {r q TR} (h : Inv r q TR) : q.length < r.W := by
   have := h.used
   omega
 
-theorem Inv.unpost {r q TR} (h : Inv r q TR) : Inv r.unpost q TR := h.with_sem _
-
 theorem makeRoom_stop (r : Rb) (len fuel : Nat) (hc : ¬ r.spaceFree < len + MARGIN) :
     r.makeRoom len (fuel + 1) = (r, true) := by
-  simp only [Rb.makeRoom, Rb.makeRoomGen, if_neg hc]
+  have hc' : ¬ r.spaceFreeGen true < len + MARGIN := hc
+  simp only [Rb.makeRoom, Rb.makeRoomGen, if_neg hc']
 
 theorem makeRoom_fail (r : Rb) (len fuel : Nat) (hc : r.spaceFree < len + MARGIN)
     (hr : r.reclaim = (r, false)) : r.makeRoom len (fuel + 1) = (r, false) := by
-  simp only [Rb.makeRoom, Rb.makeRoomGen, if_pos hc, hr]
+  have hc' : r.spaceFreeGen true < len + MARGIN := hc
+  simp only [Rb.makeRoom, Rb.makeRoomGen, if_pos hc', hr]
 
 theorem makeRoom_drop (r r' : Rb) (len fuel : Nat) (hc : r.spaceFree < len + MARGIN)
-    (hr : r.reclaim = (r', true)) : r.makeRoom len (fuel + 1) = r'.unpost.makeRoom len fuel := by
-  simp only [Rb.makeRoom, Rb.makeRoomGen, if_pos hc, hr, if_true]
+    (hr : r.reclaim = (r', true)) : r.makeRoom len (fuel + 1) = r'.makeRoom len fuel := by
+  have hc' : r.spaceFreeGen true < len + MARGIN := hc
+  simp only [Rb.makeRoom, Rb.makeRoomGen, if_pos hc', hr]
 
-theorem owDrop_nil (W len : Nat) (sem : Option Nat) :
-    owDrop W len [] sem = ([], sem, !decide (Fifo.free ⟨W, [], sem⟩ < len + MARGIN)) := rfl
+theorem owDrop_nil (W len : Nat) :
+    owDrop W len [] = ([], !decide (owFree W [] < len + MARGIN)) := rfl
 
-theorem owDrop_cons_drop (W len : Nat) (c cs) (sem : Option Nat)
-    (hc : Fifo.free ⟨W, c :: cs, sem⟩ < len + MARGIN) :
-    owDrop W len (c :: cs) sem = owDrop W len cs (sem.map (· - 1)) := by
+theorem owDrop_cons_drop (W len : Nat) (c cs)
+    (hc : owFree W (c :: cs) < len + MARGIN) :
+    owDrop W len (c :: cs) = owDrop W len cs := by
   simp only [owDrop, if_pos hc]
 
-theorem owDrop_cons_stop (W len : Nat) (c cs) (sem : Option Nat)
-    (hc : ¬ Fifo.free ⟨W, c :: cs, sem⟩ < len + MARGIN) :
-    owDrop W len (c :: cs) sem = (c :: cs, sem, true) := by
+theorem owDrop_cons_stop (W len : Nat) (c cs)
+    (hc : ¬ owFree W (c :: cs) < len + MARGIN) :
+    owDrop W len (c :: cs) = (c :: cs, true) := by
   simp only [owDrop, if_neg hc]
 
-/-- the reclaim loop does on the ring what `owDrop` does on the queue (and never runs out of fuel) -/
-theorem makeRoom_sim {r : Rb} {q : List (List Nat)} {TR : Nat} (h : Inv r q TR) (len fuel : Nat)
-    (hfuel : q.length < fuel) :
-    ∃ TR', Inv (r.makeRoom len fuel).1 (owDrop r.W len q r.sem).1 TR' ∧
-      (r.makeRoom len fuel).1.sem = (owDrop r.W len q r.sem).2.1 ∧
+/-- the reclaim loop does on the ring what `owDrop` does on the queue (and never runs out of
+    fuel); the notification count is left alone -/
+theorem makeRoom_sim {r : Rb} {q : List (List Nat)} {TR : Nat} (h : Inv r q TR) (how : r.ow = true)
+    (len fuel : Nat) (hfuel : q.length < fuel) :
+    ∃ TR', Inv (r.makeRoom len fuel).1 (owDrop r.W len q).1 TR' ∧
+      (r.makeRoom len fuel).1.sem = r.sem ∧
       (r.makeRoom len fuel).1.W = r.W ∧ (r.makeRoom len fuel).1.ow = r.ow ∧
-      (r.makeRoom len fuel).2 = (owDrop r.W len q r.sem).2.2 := by
+      (r.makeRoom len fuel).2 = (owDrop r.W len q).2 := by
   induction q generalizing r TR fuel with
   | nil =>
     cases fuel with
     | zero => simp at hfuel
     | succ fuel =>
-      have hf : r.spaceFree = Fifo.free ⟨r.W, [], r.sem⟩ := spaceFree_eq h
+      have hf : r.spaceFree = owFree r.W [] := spaceFree_eq_ow h how
       rw [owDrop_nil]
       by_cases hc : r.spaceFree < len + MARGIN
       · rw [makeRoom_fail r len fuel hc (reclaim_nil h)]
@@ -71,28 +73,30 @@ theorem makeRoom_sim {r : Rb} {q : List (List Nat)} {TR : Nat} (h : Inv r q TR) 
     cases fuel with
     | zero => simp at hfuel
     | succ fuel =>
-      have hf : r.spaceFree = Fifo.free ⟨r.W, c :: cs, r.sem⟩ := spaceFree_eq h
+      have hf : r.spaceFree = owFree r.W (c :: cs) := spaceFree_eq_ow h how
       by_cases hc : r.spaceFree < len + MARGIN
-      · rw [makeRoom_drop r _ len fuel hc (reclaim_eq_cons h), owDrop_cons_drop _ _ _ _ _ (by rw [← hf]; exact hc)]
-        have hi := (reclaim_inv h).unpost
+      · rw [makeRoom_drop r _ len fuel hc (reclaim_eq_cons h), owDrop_cons_drop _ _ _ _ (by rw [← hf]; exact hc)]
+        obtain ⟨_, hi, hsem, hW, how'⟩ := reclaim_cons h
+        rw [reclaim_eq_cons h] at hi hsem hW how'
         have hlen : cs.length < fuel := by simp only [List.length_cons] at hfuel; omega
-        have key := ih hi fuel hlen
-        simp only [Rb.unpost] at key ⊢
-        exact key
-      · rw [makeRoom_stop r len fuel hc, owDrop_cons_stop _ _ _ _ _ (by rw [← hf]; exact hc)]
+        obtain ⟨TR', k1, k2, k3, k4, k5⟩ := ih hi (by rw [how', how]) fuel hlen
+        refine ⟨TR', ?_, by rw [k2, hsem], by rw [k3, hW], by rw [k4, how'], ?_⟩
+        · rw [hW] at k1; exact k1
+        · rw [hW] at k5; exact k5
+      · rw [makeRoom_stop r len fuel hc, owDrop_cons_stop _ _ _ _ (by rw [← hf]; exact hc)]
         exact ⟨TR, h, rfl, rfl, rfl, rfl⟩
 
 /-- when `owDrop` reports room, the free-space rule holds for what is left -/
-theorem owDrop_ok {W len : Nat} {q : List (List Nat)} {sem : Option Nat}
-    (h : (owDrop W len q sem).2.2 = true) :
-    ¬ Fifo.free ⟨W, (owDrop W len q sem).1, (owDrop W len q sem).2.1⟩ < len + MARGIN := by
-  induction q generalizing sem with
+theorem owDrop_ok {W len : Nat} {q : List (List Nat)}
+    (h : (owDrop W len q).2 = true) :
+    ¬ owFree W (owDrop W len q).1 < len + MARGIN := by
+  induction q with
   | nil =>
     unfold owDrop at h ⊢
     simpa using h
   | cons c cs ih =>
     unfold owDrop at h ⊢
-    by_cases hc : Fifo.free ⟨W, c :: cs, sem⟩ < len + MARGIN
+    by_cases hc : owFree W (c :: cs) < len + MARGIN
     · rw [if_pos hc] at h ⊢
       exact ih h
     · rw [if_neg hc]
@@ -104,7 +108,7 @@ def OwStepOk (r : Rb) (q : List (List Nat)) (op : Op) (r' : Rb) (o : Out) : Prop
 
 theorem step_write_ow {r q TR} (h : Inv r q TR) (how : r.ow = true) (d : List Nat) :
     OwStepOk r q (.write d) (r.step (.write d)).1 (r.step (.write d)).2 := by
-  obtain ⟨TR', hi, hsem, hW, how', hok⟩ := makeRoom_sim h d.length r.W h.length_lt
+  obtain ⟨TR', hi, hsem, hW, how', hok⟩ := makeRoom_sim h how d.length r.W h.length_lt
   have hstep : r.step (.write d) = match r.makeRoom d.length r.W with
       | (r', false) => (r', .err .einval)
       | (r', true) => (writeTail r' d, .wrote d.length) := by
@@ -115,10 +119,10 @@ theorem step_write_ow {r q TR} (h : Inv r q TR) (how : r.ow = true) (d : List Na
   unfold OwStepOk
   simp only [Fifo.owStep, absF]
   revert hi hsem hW how' hok
-  have hokd := owDrop_ok (W := r.W) (len := d.length) (q := q) (sem := r.sem)
+  have hokd := owDrop_ok (W := r.W) (len := d.length) (q := q)
   revert hokd
   rcases r.makeRoom d.length r.W with ⟨r', b⟩
-  rcases owDrop r.W d.length q r.sem with ⟨q', sem', ok⟩
+  rcases owDrop r.W d.length q with ⟨q', ok⟩
   intro hokd hi hsem hW how' hok
   simp only at hi hsem hW how' hok hokd
   subst hok
@@ -128,10 +132,16 @@ theorem step_write_ow {r q TR} (h : Inv r q TR) (how : r.ow = true) (d : List Na
     simp only [hsem, hW]
   | true =>
     have hroom : Room r'.W (total q') (cw d.length) := by
-      rw [hW]; exact room_of_free (hokd rfl)
+      rw [hW]; exact room_of_free (sem := none) (hokd rfl)
     obtain ⟨hi2, hsem2, hW2, how2⟩ := writeTail_inv d hi hroom
     refine ⟨q' ++ [d], TR', hi2, by rw [how2, how'], ?_⟩
     simp only [Fifo.post, hsem2, hW2, hsem, hW]
+
+theorem step_free_ow {r q TR} (h : Inv r q TR) (how : r.ow = true) :
+    OwStepOk r q .free (r.step .free).1 (r.step .free).2 := by
+  refine ⟨q, TR, h, rfl, ?_⟩
+  simp only [Rb.step, Fifo.owStep, spaceFree_eq_ow h how]
+  rfl
 
 theorem step_sim_ow {r q TR} (h : Inv r q TR) (how : r.ow = true) (op : Op) :
     OwStepOk r q op (r.step op).1 (r.step op).2 := by
@@ -140,7 +150,7 @@ theorem step_sim_ow {r q TR} (h : Inv r q TR) (how : r.ow = true) (op : Op) :
   | read cap => exact step_read h cap
   | peek => exact step_peek h
   | reclaim => exact step_reclaim h
-  | free => exact step_free h
+  | free => exact step_free_ow h how
 
 theorem run_sim_ow' {r q TR} (h : Inv r q TR) (how : r.ow = true) (ops : List Op) :
     ∃ q' TR', Inv (r.run ops).1 q' TR' ∧ (r.run ops).1.ow = true ∧
@@ -163,34 +173,26 @@ theorem run_sim_ow {r q TR} (h : Inv r q TR) (how : r.ow = true) (ops : List Op)
 /-! ### what `owDrop` keeps -/
 
 /-- `owDrop` drops a prefix: the `k` oldest chunks, where every shorter drop left no room -/
-theorem owDrop_spec (W len : Nat) (q : List (List Nat)) (sem : Option Nat) :
-    ∃ k, k ≤ q.length ∧ (owDrop W len q sem).1 = q.drop k ∧ (owDrop W len q sem).2.1 = sem.map (· - k) ∧
-      (∀ j, j < k → Fifo.free ⟨W, q.drop j, sem.map (· - j)⟩ < len + MARGIN) ∧
-      ((owDrop W len q sem).2.2 = false → k = q.length) := by
-  induction q generalizing sem with
+theorem owDrop_spec (W len : Nat) (q : List (List Nat)) :
+    ∃ k, k ≤ q.length ∧ (owDrop W len q).1 = q.drop k ∧
+      (∀ j, j < k → owFree W (q.drop j) < len + MARGIN) ∧
+      ((owDrop W len q).2 = false → k = q.length) := by
+  induction q with
   | nil =>
-    refine ⟨0, Nat.le_refl _, rfl, ?_, ?_, fun _ => rfl⟩
-    · cases sem <;> simp [owDrop]
-    · intro j hj; omega
+    exact ⟨0, Nat.le_refl _, rfl, by intro j hj; omega, fun _ => rfl⟩
   | cons c cs ih =>
     unfold owDrop
-    by_cases hc : Fifo.free ⟨W, c :: cs, sem⟩ < len + MARGIN
+    by_cases hc : owFree W (c :: cs) < len + MARGIN
     · rw [if_pos hc]
-      obtain ⟨k, hk, h1, h2, h3, h4⟩ := ih (sem := sem.map (· - 1))
-      refine ⟨k + 1, by simp only [List.length_cons]; omega, by simpa using h1, ?_, ?_, ?_⟩
-      · rw [h2]; cases sem <;> simp [Nat.sub_sub, Nat.add_comm]
+      obtain ⟨k, hk, h1, h3, h4⟩ := ih
+      refine ⟨k + 1, by simp only [List.length_cons]; omega, by simpa using h1, ?_, ?_⟩
       · intro j hj
         cases j with
-        | zero => cases sem <;> simpa using hc
-        | succ j =>
-          have := h3 j (by omega)
-          cases sem with
-          | none => simpa using this
-          | some n => simpa [Nat.sub_sub, Nat.add_comm] using this
+        | zero => simpa using hc
+        | succ j => simpa using h3 j (by omega)
       · intro hf; simp only [List.length_cons]; rw [h4 hf]
     · rw [if_neg hc]
-      refine ⟨0, Nat.zero_le _, rfl, ?_, ?_, ?_⟩
-      · cases sem <;> simp
+      refine ⟨0, Nat.zero_le _, rfl, ?_, ?_⟩
       · intro j hj; omega
       · intro hf; simp at hf
 
